@@ -196,14 +196,16 @@ let f _id vs =
           let where b e = Printf.sprintf "%s/%s ListObjects(t%d#r%d@%s)" (be_s b) (eng_s e) (int_of_n ot) (int_of_n rel) (subj_s subj) in
           let known flag txt = knowns := (flag ^ " " ^ txt) :: !knowns in
           (* an object whose presence (returned = true) or absence deviates from the reference *)
-          let deviation ?(l0 = false) ?(failopen = false) b e returned id what =
+          (* nocheck: no Check call is involved in this observation (classic reverse expansion's own
+             NoFurtherEval / completeness contract), so the Check findings cannot explain it *)
+          let deviation ?(l0 = false) ?(failopen = false) ?(nocheck = false) b e returned id what =
             let txt = Printf.sprintf "%s: object %d %s (spec=%s)" (where b e) id what (b3s (spec id)) in
             if leak_obj b id then (known "rswu_userset_leak" txt; true)
             else if strict_obj e id then (known "pipeline_strict_condition_filter" txt; true)
             else if failopen && returned && e = 2 && has_e && (Lazy.force spec_nodiff) id = T then
               (known "pipeline_streamed_error_failopen" txt; true)
             else if l0 && not returned && e <> 2 && Lazy.force err_evidence then (known "limit0_error_swallowed" txt; true)
-            else if e <> 2 then begin
+            else if e <> 2 && not nocheck then begin
               let (oset, tr) = check_of id in
               let consistent = if returned then List.mem AT oset else List.exists (fun a -> a <> AT) oset in
               if consistent && tr.tr_excl_sub_cycle then (known "excl_sub_cycle" txt; true)
@@ -238,16 +240,23 @@ let f _id vs =
                 if not (nofurther_sound_nat permn ccands) then
                   List.iter (fun (i, st) ->
                     if st = 1 && not (isperm i) then
-                      if deviation b e true i "sent as NoFurtherEval candidate although not permitted" then explained := true)
+                      if deviation ~nocheck:(e = 0) b e true i "sent as NoFurtherEval candidate although not permitted" then explained := true)
                     cands;
                 if ec = 0 && not (complete_nat permn (nat_list univ) ccands) then
                   List.iter (fun i ->
                     if isperm i && not (List.mem_assoc i cands) then
-                      if deviation b e false i "permitted but not among the candidates" then explained := true)
+                      if deviation ~nocheck:(e = 0) b e false i "permitted but not among the candidates" then explained := true)
                     univ
               end;
               if ec = 0 then Hashtbl.replace stream_tbl (b, e) (ccands, !explained)
             | _ -> failwith "stream") (as_list streams);
+          (* the values the pipeline delivered in the unlimited streamed call, per backend *)
+          let pipe_values = Hashtbl.create 2 in
+          List.iter (fun runv ->
+            match as_list runv with
+            | [bv; ev; modev; limv; ecv; ovs] when as_int ev = 2 && as_int modev = 1 && as_int limv = 0 && as_int ecv = 0 ->
+              Hashtbl.replace pipe_values (as_int bv) (List.map as_int (as_list ovs))
+            | _ -> ()) (as_list runs);
           (* ---- results ---- *)
           List.iter (fun runv ->
             match as_list runv with
@@ -276,7 +285,10 @@ let f _id vs =
                 List.iter (fun id ->
                   if not (isperm id) then begin
                     bad := true;
-                    ignore (deviation ~failopen:(mode = 1 && ec = 1) b e true id
+                    let nfe_in_stream = match Hashtbl.find_opt stream_tbl (b, e) with
+                      | Some (ccands, _) -> List.exists (fun (n, st) -> int_of_nat n = id && st = NoFurtherEval) ccands
+                      | None -> false in
+                    ignore (deviation ~failopen:(mode = 1 && ec = 1) ~nocheck:(e = 0 && nfe_in_stream) b e true id
                               (Printf.sprintf "returned (limit %d, %s%s) although not permitted" limit
                                  (if mode = 1 then "streamed" else "unary") (if ec = 1 then ", then a condition error" else "")))
                   end) (uniq objs);
@@ -306,6 +318,19 @@ let f _id vs =
                                   (String.concat "," (List.map (fun n -> string_of_int (int_of_nat n)) out))
                                   (String.concat "," (List.map string_of_int objs))) :: !diffs
                   | _ -> ()
+                end;
+                (* ---- the Coq model of the pipeline's output stage (de-duplication + Recv loop) on
+                        the values of the unlimited streamed call, delivery order reconstructed ---- *)
+                if ec = 0 && e = 2 && mode = 0 && not !bad then begin
+                  match Hashtbl.find_opt pipe_values b with
+                  | Some values ->
+                    let out = pipeline_recv_nat (nat_list (objs @ values)) (nat_of_int limit) in
+                    if List.map int_of_nat out <> objs && not (same_set_nat out (nat_list objs) && limit = 0) then
+                      diffs := (Printf.sprintf "%s: Coq pipeline_recv on the streamed values {%s} gives {%s}, implementation {%s}" w
+                                  (String.concat "," (List.map string_of_int values))
+                                  (String.concat "," (List.map (fun n -> string_of_int (int_of_nat n)) out))
+                                  (String.concat "," (List.map string_of_int objs))) :: !diffs
+                  | None -> ()
                 end
               end
             | _ -> failwith "run") (as_list runs)
